@@ -118,7 +118,7 @@ KEYWORDS_NOT_TYPES = {"class", "namespace", "template", "typedef", "virtual", "s
 LATE_KINDS = [("drop-default", 3), ("rename-typedef-target", 1)]
 
 
-def corrupt(lexemes, starts, tape, n, late=False):
+def corrupt(lexemes, starts, tape, n, late=False, ml=False):
     """apply n token-level corruptions; returns (lexemes, [kinds], must_reject, cut_bytes_fraction)"""
     lex = list(lexemes)
     kinds = []
@@ -205,6 +205,12 @@ def corrupt(lexemes, starts, tape, n, late=False):
                 idx = later
             if idx:
                 k = idx[tape.choose(len(idx), "which-default")]
+                if late and ml and idx is later and pristine[0] and tape.bool(0.5, "the-trailing-function"):
+                    # the last default of the file belongs to the global function appended for this purpose: a
+                    # defaulted argument now precedes a plain one in a declaration the MATLAB generator must
+                    # wrap, which it refuses ("validation error"): invalid by construction
+                    k = later[-1]
+                    must_reject = True
                 del lex[k:k + 2]
             else:
                 kind = "noop"
@@ -365,7 +371,7 @@ def gen_case(tape, batch):
         _assert_no_comment_openers(lex)
         cut = None
         if k == victim:
-            lex, kinds, must_reject, cut = corrupt(lex, starts, tape, ncorr, late=late)
+            lex, kinds, must_reject, cut = corrupt(lex, starts, tape, ncorr, late=late, ml=ml)
             kinds_all = kinds
         text = G.render(lex, tape)
         if cut is not None:
